@@ -18,6 +18,9 @@ RULE = ("fixtures (plain folder with nested sub-folder, a 70 kB file and names s
         "states (tree digests)")
 
 START, END = "autocopy_start.txt", "autocopy_end.txt"
+# directory names with glob metacharacters and a space (legal: a path is a path, not a pattern)
+DSNAME = "ds[16k] v1"
+RELNAME = "nest[a]/ds[16k] v1"
 # names: sorting before / after the markers, nested, and legal-but-unusual ones (consecutive dots, a leading dot with a space)
 FILES = {"a.txt": b"alpha\n", "z.bin": bytes(range(200)), "sub/inner.txt": b"inner file\n", "big.bin": bytes([7]) * 70000,
          "take..2.wav": b"two dots\n", "sub/.hidden name.txt": b"dot file\n"}
@@ -110,9 +113,9 @@ class Scenario:
         fmt = fmt.split("+")[0]
         self.fmt, self.rel, self.initial, self.fn, self.workers, self.reverse = fmt, rel, initial, fn, workers, reverse
         self.root = tempfile.mkdtemp(prefix="kdv_c20_", dir=base)
-        self.groot = os.path.join(self.root, "global", "" if rel else "ds")
+        self.groot = os.path.join(self.root, "global", "" if rel else DSNAME)
         self.lroot_top = os.path.join(self.root, "local")
-        self.lroot = os.path.join(self.lroot_top, "" if rel else "ds")
+        self.lroot = os.path.join(self.lroot_top, "" if rel else DSNAME)
         self.groot = self.groot.rstrip("/")
         self.lroot = self.lroot.rstrip("/")
         build_source(self.groot, fmt, rel)
@@ -241,7 +244,7 @@ def norm_op(op):
         what = "start_marker"
     elif base == END:
         what = "end_marker"
-    elif kind in ("mkdir", "rmdir") and (base in ("ds",) or name in (".",)):
+    elif kind in ("mkdir", "rmdir") and (base in (DSNAME,) or name in (".",)):
         what = "dst"
     elif kind in ("mkdir", "rmdir"):
         what = "dir"
@@ -411,7 +414,7 @@ def scenarios(tier, seed):
     out = []
     for fn in ("folder", "image_folder"):
         for fmt in ("raw", "zip", "zips"):
-            for rel in (None, "nest/ds"):
+            for rel in (None, RELNAME):
                 for initial in ("absent", "parent", "manual", "complete"):
                     for workers in (0, 1):
                         for reverse in (False, True):
@@ -432,29 +435,29 @@ def scenarios(tier, seed):
         out = sel
         out.append(("zips3", None, "parent", "folder", 2, False))
         out += [("zipsU", None, "parent", fn, 0, False) for fn in ("folder", "image_folder")]
-        out += [("rawlinks", None, "parent", "folder", 0, False), ("rawlinks", "nest/ds", "absent", "folder", 0, True),
+        out += [("rawlinks", None, "parent", "folder", 0, False), ("rawlinks", RELNAME, "absent", "folder", 0, True),
                 ("rawlinks", None, "parent", "image_folder", 0, False)]
-        out += [("raw+path", "nest/ds", "parent", "folder", 0, False), ("zips+path", None, "absent", "image_folder", 1, True),
-                ("zip+path", "nest/ds", "absent", "folder", 0, False), ("zip+path", None, "parent", "image_folder", 0, True)]
+        out += [("raw+path", RELNAME, "parent", "folder", 0, False), ("zips+path", None, "absent", "image_folder", 1, True),
+                ("zip+path", RELNAME, "absent", "folder", 0, False), ("zip+path", None, "parent", "image_folder", 0, True)]
         for fn in ("folder", "image_folder"):
             out += [("zip+faults", None, "parent", fn, 0, False), ("zips+faults", None, "absent", fn, 0, False),
-                    ("zips3+faults", "nest/ds", "parent", fn, 1, True), ("zips3+faults", None, "parent", fn, 2, False)]
+                    ("zips3+faults", RELNAME, "parent", fn, 1, True), ("zips3+faults", None, "parent", fn, 2, False)]
     else:
         out += [("rawlinks", rel, initial, fn, 0, rev) for fn in ("folder", "image_folder")
-                for rel, initial, rev in ((None, "parent", False), ("nest/ds", "absent", True), (None, "complete", False))]
+                for rel, initial, rev in ((None, "parent", False), (RELNAME, "absent", True), (None, "complete", False))]
         out += [(fmt + "+path", rel, initial, fn, 0, rev) for fn in ("folder", "image_folder") for fmt in ("raw", "zip", "zips")
-                for rel, initial, rev in ((None, "parent", False), ("nest/ds", "absent", True))]
+                for rel, initial, rev in ((None, "parent", False), (RELNAME, "absent", True))]
         out += [("zipsU", rel, initial, fn, w, rev) for fn in ("folder", "image_folder") for rel, initial, w, rev in
-                ((None, "parent", 0, False), ("nest/ds", "absent", 1, True), (None, "complete", 0, False))]
+                ((None, "parent", 0, False), (RELNAME, "absent", 1, True), (None, "complete", 0, False))]
         for fn in ("folder", "image_folder"):
             for fmt in ("zip", "zips", "zips3"):
                 for workers in (0, 1, 2, 3):
-                    for rel, initial, reverse in ((None, "parent", False), ("nest/ds", "absent", True)):
+                    for rel, initial, reverse in ((None, "parent", False), (RELNAME, "absent", True)):
                         out.append((fmt + "+faults", rel, initial, fn, workers, reverse))
         for fn in ("folder", "image_folder"):
             for workers in (2, 3):
                 out.append(("zips3", None, "parent", fn, workers, False))
-                out.append(("zips", "nest/ds", "absent", fn, workers, True))
+                out.append(("zips", RELNAME, "absent", fn, workers, True))
     return out
 
 
